@@ -57,6 +57,10 @@ type gobs struct {
 	endErr  error
 	started bool
 
+	ctx          context.Context
+	cancelCtx    context.CancelFunc
+	disconnected bool // the client went away: every later Send fails
+
 	subscribed bool
 	s0         int
 	dead       bool
@@ -66,7 +70,9 @@ type gobs struct {
 	required   []string
 }
 
-func (o *gobs) Context() context.Context { return context.Background() }
+// Context is the stream's context: it is cancelled when the client goes away (a failed Send, or an explicit
+// disconnect step), as a real gRPC transport does.
+func (o *gobs) Context() context.Context { return o.ctx }
 
 func (o *gobs) Send(r *pb.ObserveResp) error {
 	js := r.GetValue().GetJson()
@@ -75,11 +81,18 @@ func (o *gobs) Send(r *pb.ObserveResp) error {
 	o.deliv++
 	o.got = append(o.got, js)
 	o.mu.Unlock()
+	o.mu.Lock()
+	gone := o.disconnected
+	o.mu.Unlock()
+	if gone {
+		return fmt.Errorf("observer %d: client went away", o.idx)
+	}
 	if first {
 		return nil
 	}
 	switch o.s.behaviour(o.param, gSerial(js)) {
 	case gErr:
+		o.cancelCtx()
 		return fmt.Errorf("observer %d: transport closed", o.idx)
 	case gBlock:
 		o.s.mu.Lock()
@@ -251,6 +264,14 @@ func (s *gsim) install(v rel.Value) {
 			continue
 		}
 		o.required = append(o.required, js)
+		o.mu.Lock()
+		gone := o.disconnected
+		o.mu.Unlock()
+		if gone {
+			o.dead, o.deadCause = true, "client-disconnected"
+			s.lastCause = "client-disconnected"
+			continue
+		}
 		switch s.behaviour(o.param, gSerial(js)) {
 		case gErr:
 			o.dead, o.deadCause = true, "send-error"
@@ -376,6 +397,7 @@ func (s *gsim) step(i int) {
 		}
 		src := gObserveKinds[t.Draw(len(gObserveKinds))]
 		o := &gobs{s: s, idx: len(s.obs), src: src, param: uint64(t.Draw(1 << 16))}
+		o.ctx, o.cancelCtx = context.WithCancel(context.Background())
 		s.obs = append(s.obs, o)
 		s.kinds = append(s.kinds, "observe")
 		s.descs = append(s.descs, fmt.Sprintf("Observe#%d(%s)", o.idx, src))
@@ -406,6 +428,36 @@ func (s *gsim) step(i int) {
 				s.lastCause = "unencodable-value-at-subscription"
 			}
 			o.initial = js
+		}
+	case k == 9 && len(s.obs) > 0 && t.Bool(1, 2):
+		// the client of an observer goes away without a word: its context is cancelled, later Sends fail
+		o := s.obs[t.Draw(len(s.obs))]
+		o.mu.Lock()
+		already := o.disconnected
+		o.disconnected = true
+		o.mu.Unlock()
+		if !already {
+			// from now on the observer is not live: deliveries it has not received yet (a round may be in
+			// progress behind a blocked Send) are no longer required
+			if o.subscribed && !o.dead {
+				o.mu.Lock()
+				delivered := len(o.got)
+				if delivered > 0 && o.got[0] == o.initial && (len(o.required) == 0 || delivered > len(o.required) || o.got[0] != o.required[0]) {
+					delivered--
+				}
+				o.mu.Unlock()
+				if delivered < len(o.required) {
+					o.required = o.required[:delivered]
+				}
+				o.dead, o.deadCause = true, "client-disconnected"
+				s.lastCause = "client-disconnected"
+			}
+			o.cancelCtx()
+			s.c.Fault("observe-stream-client-disconnects")
+			s.kinds = append(s.kinds, "disconnect")
+			s.descs = append(s.descs, fmt.Sprintf("Observe#%d client disconnects", o.idx))
+			s.c.Logf("step %d: observer #%d client disconnects", i, o.idx)
+			synctest.Wait()
 		}
 	case k == 8 && len(s.upds) > 0:
 		u := s.upds[t.Draw(len(s.upds))]
